@@ -297,7 +297,11 @@ def _satsolve_filein_stdout(F, cmd='sat4j', verbose=0):
     except OSError:
         pass
     finally:
-        os.unlink(cnf.name)
+        try:
+            os.unlink(cnf.name)
+        except FileNotFoundError:
+            # the solver (or its wrapper) has already removed it
+            pass
 
     # parse the solver output, for example
     #
@@ -511,21 +515,25 @@ def sat_solve(F, cmd=None, sameas=None, verbose=0, need_witness=True):
         else:
             (result, witness) = s_func(F, solver_cmd, verbose=verbose)
             if result and need_witness:
-                # Some solvers (minisat and its family) print the model
-                # up to the highest variable that occurs in a clause.
-                # Anything else which is not the complete model (no
-                # model at all, or a part of it because the solver was
-                # killed while printing it) is nothing we can return
-                # as a satisfying assignment.
+                # Some solvers print no value for the variables that
+                # occur in no clause (minisat and its family stop at
+                # the highest variable in use). Anything else which is
+                # not the complete model (no model at all, or a part
+                # of it because the solver was killed while printing
+                # it) is nothing we can return as a satisfying
+                # assignment.
                 n = F.number_of_variables()
-                used = max((abs(lit) for cls in F for lit in cls), default=0)
-                k = len(witness)
-                if [abs(l) for l in witness] != list(range(1, k + 1)) \
-                   or not (used <= k <= n):
+                used = set(abs(lit) for cls in F for lit in cls)
+                assigned = set(abs(lit) for lit in witness)
+                if len(assigned) != len(witness) \
+                   or not used <= assigned \
+                   or not assigned <= set(range(1, n + 1)):
                     raise RuntimeError(
                         "Error during SAT solver call: {}.\n".format(solver_cmd)
                         + "The solver gave no complete satisfying assignment.")
-                witness = witness + [-v for v in range(k + 1, n + 1)]
+                witness = witness + [-v for v in range(1, n + 1)
+                                     if v not in assigned]
+                witness.sort(key=abs)
             return (result, witness if need_witness else None)
 
     # no solver was available.
